@@ -151,6 +151,14 @@ def connection(sock):
     return socketutil.SocketConnection(sock)
 
 
+def symset(items):
+    """a set that can also hold symbolic members (plain set in a native replay)"""
+    if RIG.S is not None and RIG.S.symbolic:
+        from pysym.containers import SymSet
+        return SymSet(items)
+    return set(items)
+
+
 class LoopbackSock(FakeSock):
     """client-side socket wired to a daemon: every request written to it is served synchronously by the real
     Daemon.handleRequest on the server-side connection, and the reply bytes appear in this socket's inbox"""
